@@ -18,7 +18,7 @@ claimed = {
    text='Producers, Flush, one or two StopBatchWriter callers and the writer goroutine of the real BatchedWriter over the real mapdb are explored for queue sizes 0-2 and batch sizes 1-2 with at most 2 (quick) / 3 (thorough) deviations (early time-out firing is a deviation). Oracle on the recorded log: BatchWrite -> store commit -> BatchWriteDone per scheduling, nothing after Stop returned, store contents == last BatchWrite, every Enqueue that returned before Stop was invoked is written, every call returns.',
    note='Trusted: shim fidelity incl. timers (selftest); harness object implements the scheduled flag as atomic test-and-set. Two genuine defects were repaired (fix: commits a4707ca, 3cdaa7b).', ref='2 C08'),
 
- 'C10': dict(cat='model_checking', engine='H',
+ 'C10': dict(cat='model_checking', engine='H+S',
    technique='explicit-state search over operation histories of the real list against container/list (BFS with state merging to a fixpoint under a handle bound, plus depth-bounded DFS without merging)',
    text='Every history of the 12 List operations with every handle argument (live, removed, foreign, created by PushBackList copies) on two lists, both flavours, is executed on the real ds.List and on container/list; after every step forward/backward order, Len, Front/Back identity and Prev/Next/Value of every handle are compared. Merged search reaches the fixpoint for <= 5 (thorough 6) handles; unmerged search covers all histories of depth 4 (thorough 5) with 3 handles. The thread-safe flavour runs on the instrumented sync shim, so a self-deadlock is reported instead of hanging.',
    note='Trusted: container/list as reference; handles that predate an Init of their list are retired (container/list is undefined there). Two genuine defects were repaired (fix: commits be487f4, d796801).', ref='2 C10'),
@@ -61,7 +61,7 @@ claimed = {
    text='29 systems: ShrinkingMap (5 shrink-threshold settings), RandomMap, ds and timed PriorityQueue (ascending/descending, removal handles), Queue/RingBuffer/BytesFilter (capacities 1-3), Stack (both flavours), Walker (revisit on/off), TimeHeap (virtual clock), IndexedStorage, OnChangeMap (callbacks on/off, failing), SubscriptionManager (limits 0/2/3, 2 clients x 3 topics). Every history over a small universe is applied to the real object and to the model; all return values, all read-only probes, and every emitted callback/event are compared after every step; random picks are checked for membership and distinctness.',
    note='Trusted: the abstract models written for this check. Four genuine defects repaired (fix: commits in ds/walker, ds/timeheap, web/subscriptionmanager).', ref='2 C12'),
 
- 'C09': dict(cat='model_checking', engine='H',
+ 'C09': dict(cat='model_checking', engine='H+S',
    technique='exhaustive depth-bounded enumeration of operation histories on the real authenticated map/set over mapdb against a plain map model plus a differential content-only-root oracle',
    text='Every history up to depth 5 (map; 18 operations) / 6 (set; 10 operations), thorough +1, of Set/Add, Delete, Commit and Reopen (clean state only) over 4 keys (two sharing the first byte of their SHA-256 path) and values empty/a/b. After every step: Get/Has of every key, Size, Stream, Delete results equal the model; Root equals the root of a fresh instance built from the same contents in canonical order (so equal contents reached through any history give equal roots) and distinct contents have distinct roots; after Reopen root, size, contents are unchanged and WasRestoredFromStorage == (a Commit happened).',
    note='Trusted: plain-map model; pokt-network/smt is exercised as part of the system, not modelled. Reopen only after Commit/pristine.', ref='2 C09'),
@@ -100,9 +100,17 @@ claimed = {
    note='Trusted: the reference encoder in props/serixgen is the specification. Inputs with saturated timestamps are excluded as in the statement. Shapes containing arrays of non-byte elements are skipped (they cannot be decoded, C01/C02 known finding).', ref='2 C03'),
 }
 na_reason = 'check not built yet in this round (engine exists; see DESIGN.md section 9 for the order of work)'
-HB = {'C06', 'C07', 'C11', 'C13', 'C14', 'C15', 'C16', 'C17', 'C20'}
+HB = {'C06', 'C07', 'C09', 'C10', 'C11', 'C12', 'C13', 'C14', 'C15', 'C16', 'C17', 'C20'}
 for pid in HB:
     claimed[pid]['technique'] += '; every scenario is explored a second time in a race-detector build (scheduler hand-offs hidden from the detector, shims report the real happens-before edges): a data race in an explored schedule is a violation data-race|f1|f2'
+EXTRA = {
+ 'C07': '; two further enumerations: intervals at the top of the uint64 range, and two Sequence objects taking turns through clean Releases',
+ 'C09': '; a second flavour runs the map inside one realm of a shared database next to a sibling map; two concurrent-reader scenarios under the schedule explorer',
+ 'C10': '; five two-/three-thread scenarios on the thread-safe flavour under the schedule explorer (ring stays well formed)',
+ 'C12': '; concurrent scenarios for the PriorityQueue removal handles, the thread-safe Stack, ShrinkingMap.Shrink and IndexedStorage.Get under the schedule explorer',
+}
+for pid, t in EXTRA.items():
+    claimed[pid]['technique'] += t
 checks = []
 for p in props:
     pid = p['id']
